@@ -142,9 +142,13 @@ def join_blocks(
     module = block1.module
     assert ir and module and block2.section
 
-    cache.reference_cache.retarget_references(
-        block2, block1, bool(block1.size)
-    )
+    if block1.size:
+        cache.reference_cache.retarget_references(block2, block1, True)
+    else:
+        # block1 is empty, so the joined block starts and ends where block2
+        # does: start symbols stay at the start, end symbols at the end.
+        for sym in tuple(cache.reference_cache.get_references(block2)):
+            cache.reference_cache.set_referent(sym, block1, sym.at_end)
 
     if isinstance(block2, gtirb.CodeBlock):
         assert isinstance(block1, gtirb.CodeBlock)
